@@ -64,6 +64,7 @@ type Program struct {
 //	stream      OpenStream(ref, dict, filters...), Write in chunks, Close;
 //	            the actions in During are issued while the stream is open
 //	reput       Put(new ref, the very same Go value as used by action Src)
+//	bulk        N Puts of small objects expanded from Seed (large cross-reference data)
 type Action struct {
 	Op      string   `json:"op"`
 	RefKind string   `json:"ref_kind,omitempty"` // alloc | pre | explicit
@@ -79,6 +80,22 @@ type Action struct {
 	GiveLen bool     `json:"give_len,omitempty"`
 	During  []Action `json:"during,omitempty"`
 	Src     int      `json:"src,omitempty"` // reput: index of an earlier put action (modulo)
+	N       int      `json:"n,omitempty"`    // bulk: number of objects
+	Seed    uint64   `json:"seed,omitempty"` // bulk: expander seed
+}
+
+// bulkObject returns the k-th object of a bulk action.
+func bulkObject(seed uint64, k int) gen.O {
+	r := vt.NewRand(seed + uint64(k)*0x9E3779B97F4A7C15)
+	switch r.Intn(4) {
+	case 0:
+		return gen.O{T: "int", I: int64(r.Intn(100000)) - 500}
+	case 1:
+		return gen.O{T: "str", S: gen.Hex(r.Bytes(r.Intn(12)))}
+	case 2:
+		return gen.O{T: "dict", D: []gen.KV{{K: gen.Hex("K"), V: gen.O{T: "int", I: int64(k)}}, {K: gen.Hex("Next"), V: gen.O{T: "ref", N: uint32(1 + r.Intn(k+5))}}}}
+	}
+	return gen.O{T: "arr", A: []gen.O{{T: "int", I: int64(k)}, {T: "name", S: gen.Hex("N")}}}
 }
 
 // Entry is what the model expects to find under a reference.
@@ -347,6 +364,15 @@ func (p *Program) Run(sink io.Writer) *Result {
 				return "Put", err
 			}
 			res.Entries = append(res.Entries, &Entry{Ref: ref, Obj: *a.Obj, Deferred: inStream})
+		case "bulk":
+			for k := 0; k < a.N; k++ {
+				tree := bulkObject(a.Seed, k)
+				ref := w.Alloc()
+				if err := w.Put(ref, tree.PDF()); err != nil {
+					return "Put(bulk)", err
+				}
+				res.Entries = append(res.Entries, &Entry{Ref: ref, Obj: tree, Deferred: inStream})
+			}
 		case "reput":
 			if len(putVals) == 0 {
 				return "", nil
@@ -562,6 +588,7 @@ type Opts struct {
 	ForbidHeaders bool // C20: no line-initial "N G obj" inside strings and stream data
 	SmallObjects  bool // keep object trees small
 	MaxDelta      uint32 // if > 0: largest distance of an explicit object number (each skipped number costs a 20-byte xref line)
+	AllowBulk     bool // allow "bulk" actions (hundreds to thousands of small objects)
 	AllowSparse   bool // allow explicit object numbers 70000 above the allocated ones (files of > 1 MB with xref tables)
 }
 
@@ -788,6 +815,12 @@ func Gen(o Opts) *rapid.Generator[Program] {
 				}
 			}
 			a.Op = rapid.SampledFrom(ops).Draw(t, "op")
+			if o.AllowBulk && !inStream && rapid.IntRange(0, 39).Draw(t, "bulk") == 0 {
+				a.Op = "bulk"
+				a.N = rapid.SampledFrom([]int{300, 1200, 1200, 4000}).Draw(t, "bulkn")
+				a.Seed = rapid.Uint64().Draw(t, "bulkseed")
+				return a
+			}
 			switch a.Op {
 			case "put":
 				drawRef(&a)
